@@ -11,7 +11,7 @@ from vcommon import Violation
 LEVEL = "exploration"
 
 SEVS = ["debug", "command", "info", "warning", "error", "fatal"]
-FACS = ["core", "config", "f1", "f2"]
+FACS = ["core", "config", "f1", "f2", "a_facility_with_quite_a_long_name"]
 LINE_RE = re.compile(r"^\[\d\d:\d\d:\d\d \d\d/\d\d/\d{4}\] \(([^:()\s]+):(\w+)\) (.*)$")
 MSG_RE = re.compile(r"^MSG r=(\d+) f=(\S+) s=(\w+)$")
 LONG_RE = re.compile(r"^MSG r=(\d+) f=(\S+) s=(\w+) p=(\d*)$")
@@ -171,7 +171,7 @@ def _worker(a):
     try:
         for i in range(lo, hi):
             dests, secs = make_case(seed, i, tier)
-            cmds = ["LOGREG f1", "LOGREG f2"]
+            cmds = ["LOGREG f1", "LOGREG f2", "LOGREG " + FACS[-1]]
             for r, (entries, routes) in enumerate(secs):
                 tree = [(b"logs", ("obj", entries))] if entries or r == 0 else [(b"other", ("str", b"x"))]
                 if not entries and r == 0:
